@@ -252,11 +252,23 @@ def clause3_server_frames(ctx, P):
     seen = set()
     for v in views:
         lt126 = lt64k = None
+        odd = None
         for (a, p) in v.atoms:
-            if a[0] == "cmp" and a[1] == "ult" and a[3] == ("const", 126):
-                lt126 = p
-            if a[0] == "cmp" and a[1] == "ult" and a[3] == ("const", 65536):
-                lt64k = p
+            if a[0] == "cmp" and a[1] in ("ult", "ule", "ugt", "uge") and a[3][0] == "const" and a[2][0] in ("phi", "param") and a[3][1] > 100:
+                # normalise to 'value < K'
+                pred, k = a[1], a[3][1]
+                if pred == "ule":
+                    pred, k = "ult", k + 1
+                elif pred == "ugt":
+                    pred, k, p = "ult", k + 1, not p
+                elif pred == "uge":
+                    pred, p = "ult", not p
+                if k == 126:
+                    lt126 = p
+                elif k == 65536:
+                    lt64k = p
+                else:
+                    odd = k
         # value stored into header byte 1 on this path (phis resolved)
         marker = None
         for k, i in v.insts():
@@ -278,6 +290,8 @@ def clause3_server_frames(ctx, P):
                     marker = (c & 0x7F) if c is not None else "len"
         case = (lt126, lt64k)
         seen.add((case, marker))
+        if odd is not None:
+            bad = (v, "length threshold %d is neither 126 nor 65536" % odd)
         if lt126 is True and marker != "len":
             bad = (v, "length < 126 must be encoded in the first length byte")
         if lt126 is False and lt64k is True and marker != 126:
